@@ -15,7 +15,11 @@ CapOrder == <<"String", "GoString", "Error", "Height", "Width">>
 CapSeqs == {SelectSeq(CapOrder, LAMBDA c : c \in S) : S \in SUBSET Range(CapOrder)}
 
 Str(s, ls) == [k |-> "str", s |-> s, tx |-> [s |-> ls]]
-Obj(cs, v) == [k |-> "obj", caps |-> cs,
+Obj(cs, v) ==
+  IF v = "empty"      \* every text-form method now returns the empty string
+  THEN [k |-> "obj", caps |-> cs, strv |-> "", gov |-> "", errv |-> "", fmtv |-> "F", h |-> 1, w |-> 2,
+        tx |-> [strv |-> <<>>, gov |-> <<>>, errv |-> <<>>, fmtv |-> L("F")]]
+  ELSE [k |-> "obj", caps |-> cs,
                strv |-> "S" \o v \o "\nT", gov |-> "G" \o v, errv |-> IF v = "" THEN "" ELSE "E" \o v, fmtv |-> "F",
                h |-> IF v = "" THEN 2 ELSE 0, w |-> IF v = "" THEN 3 ELSE 7,
                tx |-> [strv |-> << <<"S" \o v, 1 + Len(v)>>, <<"T", 1>> >>, gov |-> L("G" \o v),
@@ -40,7 +44,9 @@ CurItem == st.row[1].cells[1].item
 Ops ==
   (IF ~HasRow THEN {[op |-> "rowitems", t |-> 1, items |-> <<d>>] : d \in Alphabet} ELSE {})
   \cup (IF HasRow /\ CurItem.k = "obj" /\ CurItem.gov = "G"
-        THEN {[op |-> "mutate", cell |-> TheCell, item |-> Obj(CurItem.caps, "2")]} ELSE {})
+        THEN {[op |-> "mutate", cell |-> TheCell, item |-> Obj(CurItem.caps, v)] : v \in {"2", "empty"}} ELSE {})
+  \cup (IF HasRow /\ CurItem.k = "obj" /\ CurItem.gov = ""
+        THEN {[op |-> "mutate", cell |-> TheCell, item |-> Obj(CurItem.caps, "3")]} ELSE {})
   \cup (IF HasRow THEN {[op |-> "update", cell |-> TheCell]} ELSE {})
 
 NewT == [op |-> "newtable", via |-> "core"]
